@@ -109,6 +109,81 @@ def build_emit(args):
     return {"prop": "C18E", "cid": cid, "line": line, "finals": list(event[1:]), "lang": lang, "obs": obs, "text": text, "code": code}
 
 
+def build_emit_file(args):
+    """several mother lines, one of them naming a resonance only; that resonance has two or three decay lines of its own.
+    Expected: the cartesian expansion, each amplitude once, in file order - each judged like a single-line amplitude."""
+    cid, event, trees, seed, lang = args
+    rng = random.Random(seed)
+    from decaylanguage.modeling.goofit import GooFitChain, GooFitPyChain
+    from decaylanguage.modeling.amplitudechain import AmplitudeChain
+    ampio.fast_lookup()
+    AmplitudeChain.cartesian = False
+    # pick the first resonance of the first tree; alternatives = the same resonance with other lineshape tags
+    t0 = copy.deepcopy(trees[0])
+    res = goofitio.resonances(t0)
+    if not res:
+        return []
+    victim = res[0]
+    alts = [copy.deepcopy(victim)]
+    for tag in rng.sample(["GSpline.EFF", None, "FOCUS.Kpi", "kMatrix.pole.1"], rng.randint(1, 2)):
+        a = copy.deepcopy(victim)
+        n = goofitio.node(a["name"], sf=a["sf"], ls=tag, kids=a["kids"])
+        if n["ls"] != victim["ls"] and all(n["ls"] != x["ls"] for x in alts):
+            alts.append(n)
+    if len(alts) < 2:
+        return []
+
+    def strip(t):
+        if t is victim:
+            return {**t, "kids": [], "sf": "-", "ls": "-"}
+        return {**t, "kids": [strip(k) for k in t["kids"]]}
+
+    def subst(t, a):
+        if t is victim:
+            return a
+        return {**t, "kids": [subst(k, a) for k in t["kids"]]}
+    partial = strip(t0)
+    expected = [subst(t0, a) for a in alts] + [copy.deepcopy(t) for t in trees[1:]]
+    body = [goofitio.render_tree(partial) + "  0 1.0 0.1  0 0.5 0.1"]
+    body += [goofitio.render_tree(t) + "  0 1.0 0.1  0 0.5 0.1" for t in trees[1:]]
+    subs = [goofitio.render_tree(a) + "  2 1.0 0.0  2 0.0 0.0" for a in alts]
+    order = body + subs
+    if rng.random() < 0.5:
+        order = subs + body                  # the resonance's own lines may stand before or after the mother lines
+    text = "EventType " + " ".join(event) + "\n" + "\n".join(order) + "\n" + "\n".join(goofitio.support_lines(expected, rng)) + "\n"
+    cls = GooFitChain if lang == "cpp" else GooFitPyChain
+    out = []
+    try:
+        lines, states = cls.read_ampgen(text=text)
+        codes = []
+        for ln in lines:
+            try:
+                codes.append(ln.to_goofit(states[1:]))
+            except Exception as e:  # noqa: BLE001
+                codes.append("RAISED " + type(e).__name__ + ": " + str(e)[:150])
+    except Exception as e:  # noqa: BLE001
+        codes = ["RAISED " + type(e).__name__ + ": " + str(e)[:150]] * len(expected)
+    for i, exp in enumerate(expected):
+        obs = {"raised": "-", "sfs": [], "lss": [], "n": -1, "groups": []}
+        code = codes[i] if i < len(codes) else "RAISED missing: %d amplitudes emitted, %d expected" % (len(codes), len(expected))
+        if len(codes) != len(expected):
+            code = "RAISED count: %d amplitudes emitted, %d expected" % (len(codes), len(expected))
+        if code.startswith("RAISED "):
+            obs["raised"] = code[7:]
+        else:
+            sfs, lss, n = goofitio.read_amplitude(code, lang)
+            obs.update(sfs=sfs, lss=lss, n=n)
+            nres = len(goofitio.resonances(exp))
+            if n > 0 and len(sfs) % n == 0 and len(lss) == n * nres:
+                per = len(sfs) // n
+                obs["groups"] = [{"sfs": sfs[k * per:(k + 1) * per], "lss": lss[k * nres:(k + 1) * nres]} for k in range(n)]
+            else:
+                obs["groups"] = [{"sfs": sfs, "lss": lss}]
+        out.append({"prop": "C18E", "cid": f"{cid}.{i}", "line": exp, "finals": list(event[1:]), "lang": lang, "obs": obs,
+                    "text": text, "code": code, "infile": True})
+    return out
+
+
 @chunked()
 def judge_emit(cases, wd, o, what):
     tf = wd / f"trace_{len(list(wd.glob('trace_*.json')))}.json"
@@ -160,6 +235,18 @@ def run(tier, seed, replay_path=None):
             if rc.get("line"):
                 args = [(0, ["D0"] + rc["finals"], rc["line"], seed, rc.get("lang", "cpp"))]
         ecases = pmap(build_emit, args, chunk=8)
+        # files with several amplitudes, one mother line naming a resonance that has decay lines of its own
+        fargs = []
+        for i in range(600 if deep else 70):
+            ev = rng.choice(goofitio.EVENTS)
+            try:
+                trees = [goofitio.gen_line(rng, ev, allow_unsupported=False) for _ in range(rng.randint(1, 3))]
+            except RuntimeError:
+                continue
+            fargs.append((i, ev, trees, seed * 43 + i, "cpp" if i % 2 else "py"))
+        if not replay_path:
+            for group in pmap(build_emit_file, fargs, chunk=4):
+                ecases += group
         rej2 = judge_emit(ecases, wd, o, "judge emitted spin factors / lineshapes / counts (AmpEmit)")
         cover = {}
         for c in ecases:
